@@ -164,6 +164,30 @@ func (bh *builtHamt) build(s *hShape, prefix []int, pathKeys []string, idx *int)
 	return lnk, total + uint64(len(blk))
 }
 
+// shardKeyOf returns the store key of sub-shard `target` of the shape tree rooted
+// at `root` (bh.shards holds the sub-shards in DFS pre-order).
+func (bh *builtHamt) shardKeyOf(root, target *hShape, slot *int) string {
+	idx := -1
+	n := 0
+	var walk func(s *hShape)
+	walk = func(s *hShape) {
+		for _, b := range s.buckets {
+			if c, ok := s.child[b]; ok {
+				if c == target {
+					idx = n
+				}
+				n++
+				walk(c)
+			}
+		}
+	}
+	walk(root)
+	if idx < 0 {
+		return "?"
+	}
+	return bh.shards[idx]
+}
+
 func buildHamtShape(which int, lg int) *builtHamt {
 	st := verifmodel.NewStore()
 	bh := &builtHamt{st: st, ls: st.LinkSystem(), lg: lg, path: map[string][]string{}, parent: map[string]string{}, under: map[string][]string{}, tab: &verifmodel.NameHashTable{}}
@@ -233,7 +257,27 @@ func VerifHamtReaderWellFormed() {
 		_, err := node.LookupByString(name)
 		_, isNoField := err.(schema.ErrNoSuchField)
 		verifrt.Assert(isNoField, "lookup:non-member-not-found")
-		verifrt.Assert(len(bh.st.Loads) <= 2, "lookup:at-most-one-shard-per-level")
+		// exactly the shards on the probe's hash path are fetched: descend while the
+		// probe's bucket holds a sub-shard, stop at an empty bucket or a value link
+		var want []string
+		cur := hShapes[which]
+		slot := 0
+		for d := 0; cur != nil; d++ {
+			b := verifrt.Concrete(chunkOf(probe, d, bh.lg))
+			next, isChild := cur.child[b]
+			if !isChild {
+				break
+			}
+			// key of that child: shards are recorded in DFS pre-order
+			want = append(want, bh.shardKeyOf(hShapes[which], next, &slot))
+			cur = next
+		}
+		verifrt.Assert(len(bh.st.Loads) == len(want), "lookup:loads-only-path-shards")
+		for i := range want {
+			if i < len(bh.st.Loads) {
+				verifrt.Assert(bh.st.Loads[i] == want[i], "lookup:loads-path-in-order")
+			}
+		}
 		verifrt.Reach("non-member")
 	case 2: // iteration + length
 		seen := map[string]int{}
